@@ -7,10 +7,13 @@ import Bng.Map
     stored prefix (`restart`); Get answers of different subscribers are always different (`unique`).
     The audit also carries the REVERSE direction, one row per unit of the pool (unit, GetByPrefix answer):
     the two directions must describe the same table (`reverse`) — never excused.
-    Rows are not judged when the STORE itself is inconsistent for that subscriber: two records announce
-    the same prefix, or the record is a remote announcement that could not be applied (it named a prefix
-    outside the pool or one held by somebody else) — that is not this node's doing.  Such subscribers
-    (and the holder the announcement collided with) stay excused for the rest of the sequence.
+    When the STORE itself is inconsistent for a subscriber — two records announce the same prefix, or the
+    record is a remote announcement that could not be honoured (a prefix outside the pool or one held by
+    somebody else) — the verdict is still emitted but flagged `collision` (finding KF-dist-remote-collision:
+    handleRemoteChange/loadAllocations drop SetAllocation's refusal).  The flag lasts until an audit finds
+    the subscriber in agreement with a collision-free record.
+    An acknowledged local write must be in the store: a record older than the last write that answered ok,
+    or a missing record under a live lease, is a `store-agree` verdict of its own.
   * a remote put that can be applied (in range, prefix free or already the subscriber's, not stale)
     must make Get answer exactly the announced prefix (`remote`).
   * serialise/restore: the original and the restored allocator must answer every later operation
@@ -20,7 +23,8 @@ import Bng.Map
 namespace Bng.DistSpec
 open Bng
 
-abbrev Verdict := String × String
+/-- (clause name, detail, excused by a collision in the store) -/
+abbrev Verdict := String × String × Bool
 
 def hexDigits (n : Nat) : Nat → List Char → List Char
   | 0, acc => acc
@@ -34,9 +38,12 @@ def hex (n : Nat) : String := String.ofList (hexDigits n 40 [])
 
 structure Mon where
   afterRestart : Bool := false
+  /-- subscribers involved in a collision in the store (an announcement that could not be honoured) -/
   conflicted   : List Nat := []
   /-- prefixes some unapplicable announcement put into the store next to their holder -/
   badPfx       : List (Nat × Nat) := []
+  /-- subscriber ↦ epoch of the last ACKNOWLEDGED local write of its record (lease mode) -/
+  acked        : AMap Nat Nat := []
   deriving Repr
 
 /-- (subscriber, stored (addr, plen, epoch), Get answer (addr, plen)) -/
@@ -48,12 +55,16 @@ abbrev RevRow := Nat × Nat × Option Nat
 inductive Ev where
   | audit (rows : List Row) (rev : List RevRow)
   | restarted
-  | mutated (k : Nat)
+  /-- the subscriber's record was (re)written or deleted by a local operation that answered ok;
+      `epoch` = the epoch an acknowledged write must carry (none: deleted / not epoch-stamped) -/
+  | mutated (k : Nat) (epoch : Option Nat)
   /-- an operation that changed nothing for the subscriber's record (refused, failed or read-only) -/
   | attempt
   /-- remote put of (addr, plen) for k: Get answer afterwards, whether the announcement was applicable -/
   | remotePut (k addr plen : Nat) (getAfter : Option (Nat × Nat)) (applicable : Bool) (rival : Option Nat)
+  | remoteDel (k : Nat)
   | forked (a b : String)
+  | util (kind : String)
   | nop
   deriving Repr
 
@@ -66,7 +77,8 @@ def dupGet (rows : List Row) : List Verdict :=
   let gets := rows.filterMap fun r => r.2.2.map fun g => (r.1, g)
   gets.filterMap fun (k, g) =>
     match gets.find? (fun (k', g') => k' ≠ k ∧ g' = g) with
-    | some (k', _) => if k < k' then some ("unique", s!"s{k} and s{k'} are both answered {hex g.1}/{g.2}") else none
+    | some (k', _) =>
+      if k < k' then some ("unique", s!"s{k} and s{k'} are both answered {hex g.1}/{g.2}", false) else none
     | none => none
 
 def rowAgrees : Row → Bool
@@ -81,11 +93,26 @@ def reverseCheck (rows : List Row) (rev : List RevRow) : List Verdict :=
     match o with
     | some k =>
       if holders.any (fun r => r.1 == k) then none
-      else some ("reverse", s!"the reverse lookup of {hex a}/{l} answers s{k}, but Get of s{k} does not answer {hex a}/{l}")
+      else some ("reverse", s!"the reverse lookup of {hex a}/{l} answers s{k}, but Get of s{k} does not answer {hex a}/{l}", false)
     | none =>
       match holders with
-      | r :: _ => some ("reverse", s!"Get of s{r.1} answers {hex a}/{l}, but the reverse lookup of {hex a}/{l} finds nobody")
+      | r :: _ => some ("reverse", s!"Get of s{r.1} answers {hex a}/{l}, but the reverse lookup of {hex a}/{l} finds nobody", false)
       | [] => none
+
+/-- an acknowledged write must be in the store: the record cannot be older than the last write that
+    answered ok -/
+def ackCheck (m : Mon) (rows : List Row) : List Verdict :=
+  rows.filterMap fun r =>
+    match r.2.1, AMap.lookup m.acked r.1 with
+    | some (_, _, e), some w =>
+      if e < w then
+        some ("store-agree", s!"s{r.1}: the record carries epoch {e} although a write at epoch {w} was acknowledged", false)
+      else none
+    | none, some w =>
+      if r.2.2.isSome then
+        some ("store-agree", s!"s{r.1}: no record although a write at epoch {w} was acknowledged and the lease is live", false)
+      else none
+    | _, _ => none
 
 def check (m : Mon) : Ev → Mon × List Verdict
   | .audit rows rev =>
@@ -93,28 +120,42 @@ def check (m : Mon) : Ev → Mon × List Verdict
     let dup := fun (r : Row) => match r.2.1 with
       | some (x, l, _) => dupStore rows (x, l) || m.badPfx.contains (x, l)
       | none => false
-    let bad := rows.filter fun r => !rowAgrees r && !m.conflicted.contains r.1 && !dup r
-    -- a subscriber that lost its prefix to a conflicting record in the store stays excused
-    let excused := (rows.filter fun r => !rowAgrees r && dup r).map (·.1)
-    ({ m with conflicted := excused ++ m.conflicted },
-     dupGet rows ++ reverseCheck rows rev ++ bad.map fun r => (name, s!"s{r.1}: the store and Get disagree"))
-  | .restarted => ({ m with afterRestart := true }, [])
-  | .mutated _ => ({ m with afterRestart := false }, [])
+    let collided := fun (r : Row) => m.conflicted.contains r.1 || dup r
+    let bad := rows.filter fun r => !rowAgrees r
+    -- a subscriber that lost its prefix to a colliding record in the store stays marked until an audit
+    -- finds it in agreement with a collision-free record
+    let marked := (rows.filter fun r => !rowAgrees r && collided r).map (·.1)
+    let cleared := (rows.filter fun r => rowAgrees r && !dup r).map (·.1)
+    let pfxLive := fun (p : Nat × Nat) => rows.any fun r => match r.2.1 with
+      | some (x, l, _) => (x, l) == p && (!rowAgrees r || dupStore rows p)
+      | none => false
+    ({ m with conflicted := marked ++ m.conflicted.filter (fun k => !cleared.contains k),
+              badPfx := m.badPfx.filter pfxLive },
+     dupGet rows ++ reverseCheck rows rev ++ ackCheck m rows ++
+       bad.map fun r => (name, s!"s{r.1}: the store and Get disagree", collided r))
+  | .restarted => ({ m with afterRestart := true, acked := [] }, [])
+  | .mutated k e =>
+    ({ m with afterRestart := false,
+              acked := match e with
+                | some e => AMap.insert m.acked k e
+                | none => AMap.erase m.acked k }, [])
   | .attempt => ({ m with afterRestart := false }, [])
   | .remotePut k addr plen g applicable rival =>
-    let m' : Mon := { m with afterRestart := false }
+    let m' : Mon := { m with afterRestart := false, acked := AMap.erase m.acked k }
     if applicable then
       if g = some (addr, plen) then (m', [])
-      else
-        ({ m' with conflicted := k :: m'.conflicted },
-         [("remote", s!"s{k} was announced with {hex addr}/{plen} and is not answered with it")])
+      else (m', [("remote", s!"s{k} was announced with {hex addr}/{plen} and is not answered with it", false)])
     else
-      -- an announcement that cannot be applied makes the STORE inconsistent for k and for the present
-      -- holder of the prefix (either may lose it at the next reload): both are excused from here on
+      -- an announcement that cannot be honoured makes the STORE inconsistent for k and for the present
+      -- holder of the prefix (either may lose it at the next reload)
       ({ m' with conflicted := k :: (match rival with
           | some k' => [k']
           | none => []) ++ m'.conflicted, badPfx := (addr, plen) :: m'.badPfx }, [])
-  | .forked a b => (m, if a = b then [] else [("roundtrip", s!"original answers '{a}', restored copy '{b}'")])
+  | .remoteDel k => ({ m with afterRestart := false, acked := AMap.erase m.acked k }, [])
+  | .forked a b => (m, if a = b then [] else [("roundtrip", s!"original answers '{a}', restored copy '{b}'", false)])
+  | .util kind =>
+    (m, if kind == "zero" || kind == "ratio" then []
+        else [("utilisation", s!"the reported utilisation is '{kind}', not allocated/total", false)])
   | .nop => (m, [])
 
 end Bng.DistSpec
